@@ -92,6 +92,33 @@ func (f *frame) stdlib(i *ssa.Call, full string, args []T, st *State, pc string)
 		return []T{{"(fabs " + args[0].S + ")", "F64"}}, pc, true
 	case "math.Pow":
 		return []T{{"(fpow " + args[0].S + " " + args[1].S + ")", "F64"}}, pc, true
+	case "sort.Strings":
+		// sorts in place: the new content is an ascending permutation of the old one (T-STD)
+		sl := args[0]
+		h := g.elemHeapOf(types.Typ[types.String])
+		oldArr := g.s.def("srt.old", T{g.readHeap(st, h, "(ptr "+sl.S+")"), "(Array Int NB)"}).S
+		na := g.s.decl("srt.new", "(Array Int NB)")
+		o, n := "(off "+sl.S+")", "(len_ "+sl.S+")"
+		perm := &forallFact{sort: "B", guard: pc, outer: "true", inst: func(t string) string {
+			return eq(app("mem", na.S, o, n, t), app("mem", oldArr, o, n, t))
+		}}
+		g.foralls = append(g.foralls, perm)
+		for _, t := range append([]string{}, g.instTerms["B"]...) {
+			g.instOne(perm, t)
+		}
+		asc := &forallFact{sort: "Int", guard: pc, outer: "true", inst: func(t string) string {
+			return imp(and("(<= "+o+" "+t+")", "(< (+ "+t+" 1) (+ "+o+" "+n+"))"), "(le (val (select "+na.S+" "+t+")) (val (select "+na.S+" (+ "+t+" 1))))")
+		}}
+		g.foralls = append(g.foralls, asc)
+		for _, t := range append([]string{}, g.instTerms["Int"]...) {
+			g.instOne(asc, t)
+		}
+		nn := &forallFact{sort: "Int", guard: pc, outer: "true", inst: func(t string) string {
+			return imp(and("(<= "+o+" "+t+")", "(< "+t+" (+ "+o+" "+n+"))"), "(not (isnil (select "+na.S+" "+t+")))")
+		}}
+		g.foralls = append(g.foralls, nn)
+		g.writeHeap(st, h, "(ptr "+sl.S+")", na.S)
+		return nil, pc, true
 	case "fmt.Errorf", "errors.New":
 		return []T{f.freshErr(st, pc, true)}, pc, true
 	case "fmt.Println", "fmt.Printf", "fmt.Print":
